@@ -779,18 +779,48 @@ def corr_asm(ctx, P):
             AsyncStateMachine.__init__(self)
             self.tlsConnection = FakeConn(script)
             self.evs = []
+            self.cb_states = []
+            self.reenter = None
+            self.nested = None
+
+        def _cb(self, name):
+            self.evs.append(name)
+            self.cb_states.append(st(self))
+            if self.reenter is not None:
+                op2, g2 = self.reenter
+                self.reenter = None
+                del self.tlsConnection.script[:]
+                self.tlsConnection.script.append(g2)
+                outer, self.evs, self.cb_states = (self.evs, self.cb_states), [], []
+                try:
+                    if op2 == "setWrite":
+                        self.setWriteOp(b"x")
+                    elif op2 == "setClose":
+                        self.setCloseOp()
+                    else:
+                        self.setHandshakeOp(self.tlsConnection._gen())
+                    res2 = "ok" + "".join(self.evs)
+                except AssertionError:
+                    res2 = "AssertionError"
+                    raise
+                except (RuntimeError, StopIteration):
+                    res2 = "raised"
+                    raise
+                finally:
+                    self.nested = (res2, list(self.cb_states))
+                    self.evs, self.cb_states = outer
 
         def outConnectEvent(self):
-            self.evs.append("+connect")
+            self._cb("+connect")
 
         def outCloseEvent(self):
-            self.evs.append("+close")
+            self._cb("+close")
 
         def outReadEvent(self, b):
-            self.evs.append("+read")
+            self._cb("+read")
 
         def outWriteEvent(self):
-            self.evs.append("+write")
+            self._cb("+write")
 
     def st(m):
         r = m.result
@@ -820,6 +850,12 @@ def corr_asm(ctx, P):
             del script[:]
             script.append(g)
             m.evs = []
+            m.cb_states = []
+            m.nested = None
+            nest = None
+            if rng.random() < 0.35:
+                nest = (rng.choice(["setWrite", "setWrite", "setClose", "setHandshake"]), rng.choice([0, 1, 1, 5, "stop", "raise"]))
+            m.reenter = nest
             prev_active = any((m.handshaker, m.closer, m.reader, m.writer))
             try:
                 if op == "inRead":
@@ -837,9 +873,31 @@ def corr_asm(ctx, P):
                 res = "AssertionError"
             except (RuntimeError, StopIteration):
                 res = "raised"
-            impl = "%s %s wr=%s ww=%s" % (st(m), res, optb(m.wantsReadEvent()), optb(m.wantsWriteEvent()))
             gs = g if isinstance(g, str) else "y%d" % g
-            P.add("asm %s %s" % (op, gs), "asyncstatemachine", dict(case, at=[op, gs]), impl)
+            # direct oracle: a callback is entered with no operation active (so that it can start the next one)
+            for cs in m.cb_states + (m.nested[1] if m.nested else []):
+                if cs != "0000/N":
+                    ctx.violation("c14:asm-callback-entered-with-active-op",
+                                  "AsyncStateMachine.%s with generator step %s: a callback ran while the machine was in state %s"
+                                  % (op, gs, cs), dict(case, at=[op, gs], callback_state=cs))
+            if m.nested is None:
+                impl = "%s %s wr=%s ww=%s%s" % (st(m), res, optb(m.wantsReadEvent()), optb(m.wantsWriteEvent()),
+                                              (" cb=" + m.cb_states[-1]) if m.cb_states else "")
+                P.add("asm %s %s" % (op, gs), "asyncstatemachine", dict(case, at=[op, gs]), impl)
+            else:
+                # the callback started the next operation: in the model that is the next transition
+                res2, cbs2 = m.nested
+                op2, g2 = nest
+                gs2 = g2 if isinstance(g2, str) else "y%d" % g2
+                P.add("asm %s %s" % (op, gs))
+                impl = "%s %s wr=%s ww=%s%s" % (st(m), res2, optb(m.wantsReadEvent()), optb(m.wantsWriteEvent()),
+                                              (" cb=" + cbs2[-1]) if cbs2 else "")
+                P.add("asm %s %s" % (op2, gs2), "asyncstatemachine:reentrant", dict(case, at=[op, gs], nested=[op2, gs2]), impl)
+                if res2 == "AssertionError":
+                    ctx.violation("c14:asm-reentrant-op-refused",
+                                  "%s started from inside the callback of %s (generator step %s) raised AssertionError; "
+                                  "the same two operations issued one after the other are accepted"
+                                  % (op2, op, gs), dict(case, at=[op, gs], nested=[op2, gs2]))
             ctx.count("a:asm:" + res.split("+")[0])
             # direct oracle: an operation that yielded 0/1 is still the active operation, waiting for that event
             if res.startswith("ok") and g in (0, 1) and (op in ("setHandshake", "setClose", "setWrite") or prev_active or op == "inRead"):
@@ -1737,6 +1795,166 @@ def play_asm(scn, spec, pin, order_seed=None):
     return out
 
 
+def play_asm_cb(scn, spec, pin, order_seed=None):
+    """the same conversation as a CALLBACK-DRIVEN application on AsyncStateMachine (what
+    TLSAsyncDispatcherMixIn / the Twisted wrapper do): every next operation is started from inside
+    a callback - client: write from outConnectEvent, close from outReadEvent; server: first half of
+    the answer from outReadEvent, second half from outWriteEvent, close from outReadEvent(b"") -
+    and each callback records how many operations the machine holds when it is entered."""
+    import hashlib
+    import random
+    from harness import lab
+    from tlslite.integration.asyncstatemachine import AsyncStateMachine
+    from tlslite.sessioncache import SessionCache
+    pin.reset()
+    rng = random.Random(order_seed) if order_seed is not None else None
+    d1 = payload(scn.get("d1", 700), "c2s")
+    d2 = payload(scn.get("d2", 300), "s2c")
+    half = len(d2) // 2
+    cache = SessionCache() if (scn.get("resume") and not scn.get("no_cache")) else None
+    session = None
+    out = {"conns": [], "callback_entry_active": []}
+
+    class App(AsyncStateMachine):
+        def __init__(self, conn, name):
+            AsyncStateMachine.__init__(self)
+            self.tlsConnection = conn
+            self.name = name
+            self.got = bytearray()
+            self.connected = False
+            self.peer_closed = False
+            self.closed_done = False
+            self.close_started = False
+            self.exc = None
+            self.obs = None
+            self.sent = 0            # server: how much of d2 has been handed to setWriteOp
+
+        def entry(self, cb):
+            n = sum(bool(x) for x in (self.handshaker, self.closer, self.reader, self.writer))
+            if n or self.result is not None:
+                out["callback_entry_active"].append([self.name, cb, n, repr(self.result)[:20]])
+
+        def outConnectEvent(self):
+            self.entry("outConnectEvent")
+            self.connected = True
+            if self.name == "client":
+                self.setWriteOp(d1)                      # handshake, then immediately write
+
+        def outCloseEvent(self):
+            self.entry("outCloseEvent")
+            self.closed_done = True
+
+        def outWriteEvent(self):
+            self.entry("outWriteEvent")
+            if self.name == "server" and 0 < self.sent < len(d2):
+                self.sent = len(d2)
+                self.obs = observe_end(self.tlsConnection)
+                self.setWriteOp(d2[half:])               # more to send: started from the writable callback
+
+        def outReadEvent(self, b):
+            self.entry("outReadEvent")
+            if not b:
+                self.peer_closed = True
+                if not self.close_started and not self.tlsConnection.closed:
+                    self.close_started = True
+                    self.setCloseOp()
+                return
+            self.got += b
+            if self.name == "server" and len(self.got) >= len(d1) and self.sent == 0:
+                self.sent = max(1, half)
+                self.setWriteOp(d2[:self.sent])          # the answer is started from inside the read callback
+            elif self.name == "client" and len(self.got) >= len(d2) and not self.close_started:
+                self.obs = observe_end(self.tlsConnection)
+                self.close_started = True
+                self.setCloseOp()                        # close from inside the read callback
+
+    for round_no in range(2 if scn.get("resume") else 1):
+        L = lab.Lab()
+        apply_schedule(L, spec)
+        c, sv = start_handshake(L, scn, session=session, cache=cache)
+        cm, sm = App(L.client.conn, "client"), App(L.server.conn, "server")
+        if scn.get("close_wait"):
+            L.client.conn.closeSocket = False
+            L.server.conn.closeSocket = False
+
+        def guarded(m, f):
+            pin.cur = m.name
+            try:
+                f()
+            except BaseException as e:  # noqa: BLE001 - classified
+                if isinstance(e, (KeyboardInterrupt, SystemExit, Hung)):
+                    raise
+                m.exc = e
+            finally:
+                pin.cur = None
+
+        guarded(cm, lambda: cm.setHandshakeOp(c(cm.tlsConnection)))
+        guarded(sm, lambda: sm.setHandshakeOp(sv(sm.tlsConnection)))
+
+        def signature():
+            return (L.link.activity, len(cm.got), len(sm.got), cm.connected, sm.connected, cm.peer_closed, sm.peer_closed,
+                    cm.closed_done, sm.closed_done, sm.sent, cm.close_started, sm.close_started)
+        idle = 0
+        steps = 0
+        while True:
+            before = signature()
+            ms = [cm, sm]
+            if rng is not None and rng.random() < 0.5:
+                ms.reverse()
+            active = False
+            for m in ms:
+                if m.exc is not None or (m.tlsConnection.closed and m.connected and m.result is None):
+                    continue
+                active = True
+                steps += 1
+                if m.wantsReadEvent():
+                    guarded(m, m.inReadEvent)
+                elif m.wantsWriteEvent():
+                    guarded(m, m.inWriteEvent)
+                elif m.connected:
+                    # idle, like a select loop: writable first (more to send?), then poll for input
+                    guarded(m, m.inWriteEvent)
+                    if m.exc is None and m.result is None and not m.tlsConnection.closed:
+                        guarded(m, m.inReadEvent)
+            if not active:
+                break
+            if signature() == before:
+                idle += 1
+                if idle >= 6:
+                    break
+            else:
+                idle = 0
+            if steps > 600000 or len(L.link.delivered["c2s"]) + len(L.link.delivered["s2c"]) > MAX_WIRE:
+                break
+
+        def stage(ok, m):
+            if m.exc is not None and not ok:
+                return ["error", lab.exc_class(m.exc)]
+            return ["done", "none"] if ok else ["stall", "none"]
+        hs_ok_c = cm.connected
+        hs_ok_s = sm.connected
+        o = {"hs_client": stage(hs_ok_c, cm) if not hs_ok_c else ["done", "none"],
+             "hs_server": stage(hs_ok_s, sm) if not hs_ok_s else ["done", "none"]}
+        if hs_ok_c and hs_ok_s:
+            got1, got2 = bytes(sm.got[:len(d1)]), bytes(cm.got)
+            o["w1"] = stage(got1 == d1, cm)
+            o["r1"] = stage(got1 == d1, sm)
+            o["w2"] = stage(got2 == d2, sm)
+            o["r2"] = stage(got2 == d2, cm)
+            o["data_c2s_ok"] = got1 == d1
+            o["data_s2c_ok"] = got2 == d2
+            o["data_c2s"] = hashlib.sha256(got1).hexdigest()[:16] + ":%d" % len(got1)
+            o["data_s2c"] = hashlib.sha256(got2).hexdigest()[:16] + ":%d" % len(got2)
+            o["client"] = cm.obs or {}
+            o["server"] = sm.obs or {}
+            o["close_client"] = stage(cm.closed_done, cm)
+            o["close_server_read"] = stage(sm.peer_closed, sm) + [max(0, len(sm.got) - len(d1))]
+            o["close_server"] = stage(sm.closed_done or L.server.conn.closed, sm)
+            session = L.client.conn.session
+        out["conns"].append(o)
+    return out
+
+
 # ---- (c) record re-framing on the path ------------------------------------------------------------
 def make_reframer(style, seed):
     """returns refilter(L) -> Link.filter.  Plaintext handshake records (content type 22 before any
@@ -1860,6 +2078,15 @@ def live_compare(ctx, scn, kind, spec, ref, pin, order_seed=None, reframe=None):
             elif kind == "asm":
                 got = play_asm(scn, spec, pin, order_seed=order_seed)
                 ignore = ("closed", "resumable")
+            elif kind == "asmcb":
+                got = play_asm_cb(scn, spec, pin, order_seed=order_seed)
+                ignore = ("closed", "resumable", "wire_c2s", "wire_s2c")
+                bad = got.pop("callback_entry_active")
+                if bad:
+                    ctx.violation("c14:asm-callback-entered-with-active-op",
+                                  "scenario %s: AsyncStateMachine.%s ran while the machine still held %d operation(s) "
+                                  "(result %s); a callback that starts the next operation then fails"
+                                  % (scn["name"], bad[0][1], bad[0][2], bad[0][3]), dict(rep, callback_entries=bad[:6]))
             else:
                 got = play_generators(scn, {"seed": 0}, pin, refilter=make_reframer(reframe[0], reframe[1]))
                 ignore = IGNORE_REFRAME
@@ -2140,6 +2367,15 @@ def live_runs(ctx):
                              "client": (rng.choice(["none", "rand", "wbk", "mid"]), rng.choice(["none", "rand", "wb1"])),
                              "server": (rng.choice(["none", "rand", "wbk", "mid"]), rng.choice(["none", "rand", "wb1"]))}
                     live_compare(ctx, scn, "asm", spec2, ref, pin, order_seed=rng.randrange(1 << 30))
+                if not (scn.get("ku") or scn.get("hb")):
+                    spec4 = {"seed": rng.randrange(1 << 30),
+                             "client": (rng.choice(["none", "one", "rand", "wbk", "mid"]), rng.choice(["none", "rand", "wb1"])),
+                             "server": (rng.choice(["none", "one", "rand", "wbk", "mid"]), rng.choice(["none", "rand", "wb1"]))}
+                    if round_no == 0:
+                        spec4 = {"seed": spec4["seed"]}
+                    if scn.get("d1", 0) > 10000:
+                        spec4 = {"seed": spec4["seed"], "client": ("mid", "rand"), "server": ("rand", "mid")}
+                    live_compare(ctx, scn, "asmcb", spec4, ref, pin, order_seed=rng.randrange(1 << 30))
                 if len(ctx.violations) >= 8:
                     break
                 if (round_no % 2 == 1 or ctx.thorough() or round_no == 0) and not ctx.extra.get("blocking_hung") \
